@@ -820,6 +820,7 @@ func TestC08(t *testing.T) {
 		"extension option layouts: every TLV tiling of a 2- and a 6-byte option area over 4 option types incl. every way to end inside an option (type byte, length byte, overrunning length), as HBH, as E2E and in HBH+E2E on every slow-path seed (traceroute+router alert, expired) and a quarter of the others, auth off and on, 2-byte area also with all 65536 values; " +
 		"generated (not mutated) packets: every validated hop of every rtr.CasesP case re-MACed with its travel ingress and/or egress over {0, unknown, 0xffff, sibling-owned, own} x 4 router-alert flag combinations x {SCION, EPIC} x {UDP, SCMP traceroute request} x ingress kinds, one-hop paths likewise; " +
 		"reply-header size sweep (generated): one representative per slow-path cause (expired hop 8-byte SCMP header, BFD-down external egress 20, BFD-down sibling egress 28, traceroute router alert) x ingress kind x segment count x cross-over x first/last position, path stretched with foreign hop fields to EVERY hop count up to 64 x source host {IPv4, IPv6, service} x destination host kind x router address {IPv4, IPv6} x {SCION, EPIC} x {small, 1300-byte} payload x authentication off/on: every reply-header size from 80 to 916 bytes in steps of 4 on both sides of the 512-byte headroom; " +
+		"configuration histories (the router is reconfigured while it runs): every sequence of 3 events (and, judged after every step, every shorter one) over {AddSvc, DelSvc} x 2 services x 2 instances, BFD up/down on an external and a sibling link, SetPortRange x 2, on service number pairs {CS, DS}, {wildcard, unknown} (thorough: {CS with multicast bit, 0}), start-up configuration with and without a registered instance, authentication off/on; after every step packets to every service destination kind (DS, CS, wildcard, unknown, 0, 0x7fff, each without and with the multicast bit), IPv4/IPv6 destinations inside/outside the port range and packets leaving through the reconfigured links, on delivery carriers of every ingress kind as SCION and EPIC and on a one-hop path; " +
 		"path meta word (structured subset of 4x64x7^3x2 words on 4 seeds and all ingress kinds; thorough adds all 2^26 words on each of the 4 seeds); pairs of structural single-byte mutations (bound 2); STUN: every byte x " +
 		"same values, every truncation, first attribute type/length all 65536 values, extra attributes. Structural families on all three ingress kinds " +
 		"(external, sibling, internal), byte sweep on the seed's own ingress; SCMP authentication off/on. Every input is distinct by construction"
@@ -1173,6 +1174,8 @@ func TestC08(t *testing.T) {
 				}
 			}
 		}
+		// ---- phase H: configuration histories (service registrations, BFD link state, port range) x state-dependent packets ----
+		c08ConfigHistories(k, now, stop)
 		if os.Getenv("C08_DEBUG") == "only-generated-phases" { // development aid: stop after phases 0 and 0b (the run then fails its outcome self-check)
 			return
 		}
@@ -1460,6 +1463,7 @@ func TestC08(t *testing.T) {
 		"consistency = HdrLen within the packet, PayloadLen equal to the bytes after the header, address header and path fit HdrLen, CurrHF < NumHops, CurrINF is the segment of CurrHF, and slayers decodes the output; header bytes beyond the path (slack) and a non-zero version nibble are counted, not judged",
 		"STUN answers are checked against RFC 5389 (success response, length, cookie, transaction id, XOR-MAPPED-ADDRESS = sender); answering a request that is not strictly well-formed is counted, not judged",
 		"non-termination is caught by the test binary's timeout, not by a per-case watchdog (the virtual clock cannot time real loops)",
+		"configuration histories: AddSvc / DelSvc / SetPortRange are the data plane's own run-time calls (what control.ConfigDataplane and the service-instance updater call); BFD link state is forced with the bfd.Session test hook instead of running the protocol (C05/C07 cover the protocol); interfaces and neighbours cannot change on a running data plane (the calls are refused) and are not events; a panic or error of a reconfiguration call itself is reported as a violation too (the router process dies); bound: 3 events",
 		"BFD sessions exist but are not running: a fresh router is built every 8 BFD-carrying inputs so that the session's bounded receive queue never blocks the harness",
 	}
 	r.Finish(6)
